@@ -12,6 +12,7 @@ import Iodata.Lemmas.Fmt.Sdf
 import Iodata.Lemmas.Fmt.Pdb
 import Iodata.Lemmas.Fmt.PdbConect
 import Iodata.Lemmas.Fmt.Fchk
+import Iodata.Lemmas.Fmt.Cube
 import Iodata.Gen.Layouts
 
 namespace Iodata.Props.C02
@@ -248,5 +249,69 @@ example : Fchk.load fchkL.reader fchkRunTypes (fun _ => true) (Fchk.dump fchkL f
       ⟨[], some ['o','p','t'], some ['H','f'], none, [(['A'], .ints [1, -2, 3, 4, 5, 6, 7]), (['C'], .reals [])]⟩)
     = .ok ⟨fchkL.defaultTitle, some ['o','p','t'], ['h','f'], some ['n','a'], [(['A'], .ints [1, -2, 3, 4, 5, 6, 7])]⟩ := by
   decide +kernel
+
+end Iodata.Props.C02
+
+namespace Iodata.Props.C02
+open Iodata.Chars Iodata.Decimal Iodata.Fmt Iodata.Gen.Layouts
+
+/-! ## Cube -/
+
+/-- Cube: the written file — title, comment line, origin, three axis lines, one line per atom, then the grid values six per
+line with a new line at the start of every row of `shape[2]` values — is read back as the object: every shape (also
+`shape[2] % 6 ≠ 0`, also empty grids), any number of atoms, header numbers of any magnitude and sign, every value.
+`norm` fills in the default title and replaces a core charge of exactly zero by the atomic number (the reader's heuristic;
+`cube_ghost_atom_violated` below). -/
+theorem cube_load_dump (L : Cube.Layout) (hL : Cube.LayoutOK L) (o : Cube.Obj) (h : Cube.Dom L o) :
+    Cube.load L (Cube.dump L o) = .ok (Cube.norm L o) :=
+  Cube.load_dump L hL o h
+
+/-- Cube: the data lines hold the values in order and no line is empty, for every row length (ragged rows included). -/
+theorem cube_data_lines (L : Cube.Layout) (hL : Cube.LayoutOK L) (bs : Nat) (hbs : 0 < bs) (data : List Sci) :
+    (Cube.dataChunks L bs data).flatten = data ∧ ∀ ch ∈ Cube.dataChunks L bs data, ch ≠ [] :=
+  Cube.dataChunks_spec L hL bs hbs data
+
+/-- Cube: away from zero core charges the round trip changes nothing but an empty title. -/
+theorem cube_norm_identity (L : Cube.Layout) (o : Cube.Obj) (hq : ∀ a ∈ o.atoms, a.q.mag ≠ 0) (ht : o.title ≠ []) :
+    Cube.norm L o = o := by
+  have h1 : o.atoms.map (Cube.normAtom L) = o.atoms := by
+    conv => rhs; rw [← List.map_id o.atoms]
+    apply List.map_congr_left
+    intro a ha
+    simp [Cube.normAtom, hq a ha]
+  have h2 : Cube.outTitle L o.title = o.title := by
+    cases e : o.title with
+    | nil => exact absurd e ht
+    | cons _ _ => rfl
+  simp [Cube.norm, h1, h2]
+
+/-- Cube (known finding `cube:ghost-atom-core-charge`, proved on the model): a ghost atom (Z = 1, core charge 0) is
+written with `0.000000` in the second column and comes back with core charge 1. -/
+theorem cube_ghost_atom_violated :
+    Cube.load cubeL (Cube.dump cubeL ⟨['g'], ⟨⟨false, 0⟩, ⟨false, 0⟩, ⟨false, 0⟩⟩, [1, 1, 1],
+        [⟨⟨false, 1000000⟩, ⟨false, 0⟩, ⟨false, 0⟩⟩, ⟨⟨false, 0⟩, ⟨false, 1000000⟩, ⟨false, 0⟩⟩, ⟨⟨false, 0⟩, ⟨false, 0⟩, ⟨false, 1000000⟩⟩],
+        [⟨1, ⟨false, 0⟩, ⟨false, 0⟩, ⟨false, 0⟩, ⟨false, 0⟩⟩], [⟨false, 100000, 0⟩]⟩)
+      = .ok ⟨['g'], ⟨⟨false, 0⟩, ⟨false, 0⟩, ⟨false, 0⟩⟩, [1, 1, 1],
+        [⟨⟨false, 1000000⟩, ⟨false, 0⟩, ⟨false, 0⟩⟩, ⟨⟨false, 0⟩, ⟨false, 1000000⟩, ⟨false, 0⟩⟩, ⟨⟨false, 0⟩, ⟨false, 0⟩, ⟨false, 1000000⟩⟩],
+        [⟨1, ⟨false, 1000000⟩, ⟨false, 0⟩, ⟨false, 0⟩, ⟨false, 0⟩⟩], [⟨false, 100000, 0⟩]⟩ := by decide +kernel
+
+/-- Cube: layout side conditions and the shape of the writer in the source. -/
+theorem cube_layout_ok : Cube.LayoutOK cubeL ∧ cube_writes = Cube.expectedWrites cubeL := by decide +kernel
+
+def cubeVals (n : Nat) : List Sci := (List.range n).map fun k => ⟨k % 2 == 1, 100000 + k, (k : Int) - 3⟩
+
+/-- Cube: the writer's counter loop (`counter % 6 == 5`, the reset at the end of a row when `shape[2] % 6 ≠ 0`) produces
+exactly the lines of the closed form the theorems speak about — checked by computation for every row length 1 … 14 and
+1 … 3 rows (the driver runs both on every generated case as well). -/
+theorem cube_loop_is_closed_form :
+    ∀ bs ∈ List.range' 1 14, ∀ rows ∈ [1, 2, 3],
+      Cube.dataLoop cubeL bs 0 (cubeVals (bs * rows)) = (Cube.dataLines cubeL bs (cubeVals (bs * rows))).flatten := by
+  decide +kernel
+
+/-- non-vacuity: a 2 × 1 × 7 grid (row length 7: lines of 6 + 1), two atoms, negative and wide header numbers. -/
+example : Cube.Dom cubeL ⟨[], ⟨⟨true, 123456789012⟩, ⟨false, 0⟩, ⟨true, 0⟩⟩, [2, 1, 7],
+    [⟨⟨false, 1⟩, ⟨false, 0⟩, ⟨false, 0⟩⟩, ⟨⟨false, 0⟩, ⟨true, 5⟩, ⟨false, 0⟩⟩, ⟨⟨false, 0⟩, ⟨false, 0⟩, ⟨false, 999999999⟩⟩],
+    [⟨8, ⟨false, 6000000⟩, ⟨true, 1⟩, ⟨false, 2⟩, ⟨false, 3⟩⟩, ⟨1, ⟨false, 1000000⟩, ⟨false, 0⟩, ⟨false, 0⟩, ⟨false, 0⟩⟩],
+    cubeVals 14⟩ := by decide +kernel
 
 end Iodata.Props.C02
